@@ -2,6 +2,7 @@
 EXTENDS SeqDiagram, Json
 VARIABLES m, l
 vars == <<m>>
+\* the begin event of the diagram the current line belongs to (Ev.b is its line)
 Trace == ndJsonDeserialize("trace.ndjson")
 Ev == Trace[l]
 Is(e) == l <= Len(Trace) /\ Trace[l].e = e
@@ -19,7 +20,16 @@ EvEnd == /\ Is("end") /\ (AtEnd(m) # {} => Say("VERDICT", Ev.t, AtEnd(m)))
 \* a refusal with an error is an admissible outcome
 EvError == Is("error") /\ UNCHANGED m /\ Adv
 
-Normal == Begin \/ Step \/ EvEnd \/ EvError
+\* beyond C13: the Mermaid sequence diagram of the same start endpoint, judged against the same reference walk
+Mermaid == /\ Is("mermaid")
+           /\ LET b == Trace[Ev.b]
+                  bad == IF ~Ev.ok THEN {"MermaidNoDiagram"}
+                         ELSE MermaidJudge(Want(b.eps, b.sapp, b.sep, {}), [i \in DOMAIN Ev.arrows |-> <<Ev.arrows[i][1], Ev.arrows[i][2], Ev.arrows[i][3]>>],
+                                           Ev.opens, Ev.ends, Len(Ev.unknown))
+              IN bad # {} => Say("EXTRA", Ev.t, bad)
+           /\ UNCHANGED m /\ Adv
+
+Normal == Begin \/ Step \/ EvEnd \/ EvError \/ Mermaid
 \* panic, timeout, unreadable line
 Skip == /\ l <= Len(Trace) /\ ~ENABLED Normal /\ Say("REJECT", Ev.t, Ev.e)
         /\ l' = Trace[Ev.b].nx /\ UNCHANGED vars
